@@ -5,6 +5,8 @@
 # 3. with the patch the demo fails.  Prints CONFIRMED / REJECTED.
 # env: SEED_TEST_ARGS   extra args for the existing-tests run (e.g. --lib)
 #      SEED_FEATURES    e.g. "--features verif" for demos that use the hook feature
+#      SEED_APPLY_DIFFS=1 apply demo/*.diff (e.g. a dev-dependency) although the demo is an integration test
+#      SEED_FILTER      test-name filter for in-crate demos whose module name differs from the file name
 #      SEED_INCRATE=1   demo is an in-crate #[cfg(test)] module: demo/include.diff is applied and the demo
 #                       is run as `cargo test -p PKG --lib <module name>`
 set -u
@@ -20,14 +22,14 @@ for f in "$D"/demo/*.rs; do names+=("$(basename "$f" .rs)"); done
 put_demo() {
   mkdir -p "$W/$TDIR"
   for f in "$D"/demo/*.rs; do cp "$f" "$W/$TDIR/"; done
-  if [ "${SEED_INCRATE:-0}" = 1 ]; then for i in "$D"/demo/*.diff; do git -C "$W" apply "$i" || echo "include diff does not apply"; done; fi
+  if [ "${SEED_INCRATE:-0}" = 1 ] || [ "${SEED_APPLY_DIFFS:-0}" = 1 ]; then for i in "$D"/demo/*.diff; do git -C "$W" apply "$i" || echo "include diff does not apply"; done; fi
 }
 drop_demo() {
   for n in "${names[@]}"; do rm -f "$W/$TDIR/$n.rs"; done
-  if [ "${SEED_INCRATE:-0}" = 1 ]; then for i in "$D"/demo/*.diff; do git -C "$W" apply -R "$i"; done; fi
+  if [ "${SEED_INCRATE:-0}" = 1 ] || [ "${SEED_APPLY_DIFFS:-0}" = 1 ]; then for i in "$D"/demo/*.diff; do git -C "$W" apply -R "$i"; done; fi
 }
 run_demo() { # $1 = name
-  if [ "${SEED_INCRATE:-0}" = 1 ]; then cargo test -q -p "$PKG" --lib --offline $F "$1"; else cargo test -q -p "$PKG" --offline $F --test "$1"; fi
+  if [ "${SEED_INCRATE:-0}" = 1 ]; then cargo test -q -p "$PKG" --lib --offline $F "${SEED_FILTER:-$1}"; else cargo test -q -p "$PKG" --offline $F --test "$1"; fi
 }
 ok=1
 cd "$W"
